@@ -492,6 +492,7 @@ func runC04(c *Ctx) {
 	c04NoExperimentalFlag(c, "C04-R2")
 	c04CanHaveLabelInputs(c, "C04-R5")
 	c04EveryBranchEmitted(c, "C04-R5")
+	c12PureAnalysis(c, "C04-R5")
 
 	c04Narrowing(c, "C04-R3", false)
 
@@ -548,6 +549,9 @@ func runC12(c *Ctx) {
 	c04Ownership(c, "C12-R6")
 	c04LostUpdates(c, "C12-R6")
 	c12PerNameInclusion(c, "C12-R6")
+	c12SelectorLabelsConditional(c, "C12-R6")
+	c04CanHaveLabelInputs(c, "C12-R6")
+	c12PureAnalysis(c, "C12-R6")
 	c04NoExperimentalFlag(c, "C12-R2")
 	c04EveryBranchEmitted(c, "C12-R6")
 	c12JoinOperands(c, "C12-R7")
@@ -555,6 +559,7 @@ func runC12(c *Ctx) {
 	c12AlwaysReturns(c, "C12-R8")
 	c.Rule("C12-R9", "labels are excluded only where PromQL drops them; helpers get the query's whole label lists", 70)
 	c04Narrowing(c, "C12-R9", true)
+	c04EmptyMatcher(c, "C12-R9")
 	c12WholeLists(c, "C12-R9")
 	c.Rule("C12-R10", "arithmetic folding table; known value and always-returns survive only pass-through nodes", 20)
 	c12Arithmetic(c, "C12-R10")
